@@ -95,3 +95,6 @@ Qed.
 Lemma Extra_eq c0 c0' fr fr' evs evs' K ext : evs = evs' -> Extra c0 c0' fr fr' evs K ext -> Extra c0 c0' fr fr' evs' K ext.
 Proof. intros <-. auto. Qed.
 End ExtraS.
+
+Print Assumptions Extra_app.
+Print Assumptions Extra_frags.
